@@ -69,8 +69,7 @@ TValueOp ==
     /\ Obs[l].event = "ValueOp"
     /\ LET o == Obs[l]
        IN \A i \in 1..Len(o.fails) :
-             IF Dev_BigUnionHashPropagates(o.a, o.b, o.fails[i].exc) THEN Say(o.tid, "dev:big-union-fast-path-hash-exception-propagates")
-             ELSE Say(o.tid, "viol:ValueOperationRaised")
+             Say(o.tid, "viol:ValueOperationRaised")
     /\ UNCHANGED <<lvars, file, slice, cprog, cnode, seen>>
 TRtOp ==
     /\ Obs[l].event = "RtOp"
